@@ -102,6 +102,8 @@ class Interp:
         self.local_models = {}       # workspace callee key -> model (assume-guarantee summaries supplied by a rule)
         self.purefun = {}            # canonical result variable of a pure integer function -> its argument variables
         self.snapshots = {}
+        self.track_content = False   # content-tracking mode: input sequences are identified, copies keep the identity
+        self.contents = {}           # content id -> description of a derived content (digest outputs ...)
         self.ret_hooks = {}          # workspace callee key -> fn(interp, state, caller frame, return value): rule-supplied ghosts
         self._cur = (0, 0, 0)
         self.loops = {}              # (body key, frame id, head bb) -> (head partitions, back-edge states) at the fixpoint
@@ -123,6 +125,11 @@ class Interp:
         t = body.ty(tix)
         return self._top(st, body.types, t, hint, depth, region_prefix)
 
+    def _named_seq(self, st, hint, dflt, of=None, length=None):
+        """an input sequence; in content-tracking mode it carries the identity `in:<path of the input>`"""
+        ln = length if length is not None else self.fresh_num(st, 0, ISIZE_MAX, (hint or dflt) + "_len").e
+        return Seq(ln, of, None, None, ("in:" + hint, Lin.const(0)) if (self.track_content and hint) else None)
+
     def _top(self, st, types, t, hint, depth, region_prefix):
         k = t.get("k")
         r = int_range(t)
@@ -140,16 +147,16 @@ class Interp:
             to = types[t["to"]]
             tk = to.get("k")
             if tk in ("slice", "str"):
-                return Seq(self.fresh_num(st, 0, ISIZE_MAX, (hint or "s") + "_len").e, to.get("of"))
+                return self._named_seq(st, hint, "s", to.get("of"))
             if region_prefix is None:
                 return TOP
             cell = "%s*%s" % (region_prefix, hint or self.fresh("r"))
             st.cells[cell] = self._top(st, types, to, hint, depth + 1, cell)
             return Ref(cell)
         if k == "array":
-            return Seq(Lin.const(t["len"]), t.get("of"))
+            return self._named_seq(st, hint, "a", t.get("of"), Lin.const(t["len"]))
         if k in ("slice", "str"):
-            return Seq(self.fresh_num(st, 0, ISIZE_MAX, (hint or "s") + "_len").e, t.get("of"))
+            return self._named_seq(st, hint, "s", t.get("of"))
         if k == "tuple":
             return Struct({i: self._top(st, types, types[e], "%s_%d" % (hint, i), depth + 1, region_prefix) for i, e in enumerate(t["elems"])})
         if k == "closure":
@@ -157,11 +164,11 @@ class Interp:
         if k == "adt":
             path = t["path"]
             if path in SEQ_ADTS:
-                return Seq(self.fresh_num(st, 0, ISIZE_MAX, (hint or "v") + "_len").e)
+                return self._named_seq(st, hint, "v")
             if path == "std::boxed::Box" and t.get("args"):
                 inner = types[t["args"][0]]
                 if inner.get("k") in ("slice", "str"):
-                    return Seq(self.fresh_num(st, 0, ISIZE_MAX, (hint or "b") + "_len").e)
+                    return self._named_seq(st, hint, "b")
                 return TOP
             args = t.get("args", [])
             if path == "std::option::Option" and args:
@@ -189,7 +196,7 @@ class Interp:
             if a["kind"] == "enum":
                 vs = {}
                 for vi, v in enumerate(a["variants"]):
-                    vs[vi] = Struct({i: (self._top(st, at, at[f["ty"]], "%s_%s" % (hint, f["name"]), depth + 1, region_prefix) if "ty" in f else TOP)
+                    vs[vi] = Struct({i: (self._top(st, at, at[f["ty"]], "%s_%s_%s" % (hint, v["name"], f["name"]), depth + 1, region_prefix) if "ty" in f else TOP)
                                      for i, f in enumerate(v["fields"])})
                 return Enum(path, vs)
             return TOP
@@ -365,6 +372,11 @@ class Interp:
         if not isinstance(seq, Seq) or seq.view is None:
             return
         base, off = seq.view
+        if str(base).startswith("@"):
+            # a window of an owned container (content-tracking mode): an untracked write makes that part unknown
+            from absint.models_content import patch_container
+            patch_container(self, st, seq.view, lo, hi, ("be", 0, None))
+            return
         cell = "wlog:" + base
         g = st.cells.get(cell)
         if not isinstance(g, Struct):
@@ -458,7 +470,8 @@ class Interp:
         if "bool" in v:
             return Cond("const", bool(v["bool"]))
         if "str" in v:
-            return Seq(Lin.const(v.get("len", len(v["str"].encode()))))
+            raw_ = v["str"].encode()
+            return Seq(Lin.const(v.get("len", len(raw_))), None, None, None, ("lit:" + raw_.hex(), Lin.const(0)) if self.track_content and len(raw_) <= 16 else None)
         t = fr.body.ty(op["ty"])
         if "mem" in v:
             n = v["len"]
@@ -1037,7 +1050,7 @@ class Interp:
             if agg == "tuple":
                 return Struct({i: v for i, v in enumerate(ops)})
             if agg == "array":
-                if 0 < len(ops) <= 32 and all(isinstance(o, Num) and o.e.is_const() for o in ops):
+                if 0 < len(ops) <= 32 and (all(isinstance(o, Num) and o.e.is_const() for o in ops) or (self.track_content and len(ops) <= 16)):
                     return Seq(Lin.const(len(ops)), None, Struct({i: o for i, o in enumerate(ops)}, tag="elems"))
                 return Seq(Lin.const(len(ops)))
             if agg == "closure":
